@@ -170,11 +170,13 @@ type kSys struct {
 	ops    []*qsched.Op // in-flight or finished operations, in issue order
 	opDesc []string
 	// monitors
-	stopped   []bool // sticky-stop monitor per workspace
-	stopVia   []string
-	prevState []string
-	issued    int
-	stopOp    *qsched.Op
+	stopped []bool // sticky-stop monitor per workspace
+	stopVia []string
+	// progress of the space's database at the moment its last stop returned
+	stopProgress []float64
+	prevState    []string
+	issued       int
+	stopOp       *qsched.Op
 	// lock gates (scenarios with LockGates): every acquisition of the state lock by an operation goroutine is a
 	// scheduling point "lock:<operation>/<n>#<k>:<Lock|RLock>"
 	gmu sync.Mutex
@@ -263,6 +265,7 @@ func kNew(initial string, chanCap int) *kSys {
 		k.sid[ws.id.String()] = i
 		k.stopped = append(k.stopped, false)
 		k.stopVia = append(k.stopVia, "")
+		k.stopProgress = append(k.stopProgress, 0)
 	}
 	k.sk = sk
 	VerifGate = func(x *SpaceKeeper, name string) {
@@ -619,7 +622,7 @@ func (k *kSys) stateKey(blocked []qsched.GoroutineInfo, budget int, hist string)
 	for i, ws := range k.ws {
 		d := k.db[i]
 		d.mu.Lock()
-		fmt.Fprintf(&sb, "%s:%s u=%v p=%v pl=%v del=%v st=%v idx=", kNames[i], ws.state, ws.using, d.progress, d.plotting, d.deleted, k.stopped[i])
+		fmt.Fprintf(&sb, "%s:%s u=%v p=%v pl=%v del=%v st=%v/%v idx=", kNames[i], ws.state, ws.using, d.progress, d.plotting, d.deleted, k.stopped[i], k.stopped[i] && k.stopProgress[i] >= 100)
 		d.mu.Unlock()
 		sid := ws.id.String()
 		for s := engine.FirstState; s <= allState; s++ {
